@@ -133,3 +133,127 @@ pub fn freq_class(r: &mut Rng, region: RegionId) -> u32 {
 pub fn send_len(r: &mut Rng) -> u8 {
     *r.pick(&[0u8, 1, 1, 2, 3, 5, 8])
 }
+
+/// A MAC command with field values drawn from the whole range (biased towards plausible ones).
+pub fn gen_mac(r: &mut Rng, region: RegionId) -> MacSpec {
+    match r.below(14) {
+        0 | 1 | 2 => {
+            let ctl = if r.chance(2, 3) { *r.pick(&[0u8, 0, 6, 5, 7]) } else { r.below(8) as u8 };
+            let mask = match r.below(6) {
+                0 => 0,
+                1 => 1 << r.below(16),
+                2 => 0xFFFF,
+                3 => 0x00FF,
+                4 => 0x0007,
+                _ => r.next_u32() as u16,
+            };
+            MacSpec::LinkAdr { dr: if r.chance(1, 4) { 15 } else { r.below(16) as u8 }, pow: if r.chance(1, 4) { 15 } else { r.below(16) as u8 }, mask, ctl, nbtrans: r.below(16) as u8 }
+        }
+        3 | 4 => MacSpec::RxParamSetup { rx1off: r.below(8) as u8, rx2dr: r.below(16) as u8, freq: freq_class(r, region) },
+        5 => MacSpec::RxTimingSetup { del: if r.chance(3, 4) { r.below(16) as u8 } else { r.below(256) as u8 } },
+        6 | 7 => {
+            let idx = *r.pick(&[0u8, 1, 2, 3, 4, 5, 7, 8, 15, 16, 17, 63, 64, 71, 72, 255]);
+            let drrange = match r.below(4) {
+                0 => 0x50,
+                1 => r.below(256) as u8,
+                2 => *r.pick(&[0x00u8, 0x55, 0x70, 0x77, 0xF0, 0xFF, 0x05, 0x60, 0x66]),
+                _ => ((r.below(8) as u8) << 4) | r.below(8) as u8,
+            };
+            MacSpec::NewChannel { idx, freq: freq_class(r, region), drrange }
+        }
+        8 | 9 => MacSpec::DlChannel { idx: *r.pick(&[0u8, 1, 2, 3, 4, 5, 15, 16, 71, 72, 255]), freq: freq_class(r, region) },
+        10 => MacSpec::DevStatus,
+        11 => {
+            if r.chance(1, 2) {
+                MacSpec::DutyCycle { v: r.below(256) as u8 }
+            } else {
+                MacSpec::TxParamSetup { v: r.below(256) as u8 }
+            }
+        }
+        12 => {
+            if r.chance(1, 2) {
+                MacSpec::LinkCheckAns { margin: r.below(256) as u8, gw: r.below(256) as u8 }
+            } else {
+                MacSpec::DeviceTimeAns { secs: r.next_u32(), frac: r.below(256) as u8 }
+            }
+        }
+        _ => {
+            // unknown CID or truncated command
+            let n = r.range(1, 6) as usize;
+            let mut b = r.bytes(n);
+            if r.chance(1, 2) {
+                b[0] = *r.pick(&[0x03u8, 0x05, 0x07, 0x0A, 0x08, 0x0D, 0x02]);
+            }
+            MacSpec::Raw(b)
+        }
+    }
+}
+
+/// Put a command list into a downlink: FOpts when it fits in 15 bytes, else port 0.
+pub fn frame_with_macs(macs: Vec<MacSpec>, prefer_port0: bool) -> DataSpec {
+    let len: usize = macs.iter().map(|m| m.encoded_len()).sum();
+    let mut d = DataSpec::plain(1);
+    if len <= 15 && !prefer_port0 {
+        d.fopts = macs;
+    } else {
+        d.body = Body::Port0(macs);
+    }
+    d
+}
+
+/// 16 raw CFList bytes: type 0 (five frequencies), type 1 (channel mask) or an RFU type.
+pub fn gen_cflist(r: &mut Rng, region: RegionId) -> Vec<u8> {
+    let mut v = vec![0u8; 16];
+    match r.below(5) {
+        0 | 1 => {
+            for i in 0..5 {
+                let f = freq_class(r, region);
+                v[3 * i] = f as u8;
+                v[3 * i + 1] = (f >> 8) as u8;
+                v[3 * i + 2] = (f >> 16) as u8;
+            }
+            v[15] = 0;
+        }
+        2 | 3 => {
+            let pat = r.below(5);
+            for b in v.iter_mut().take(9) {
+                *b = match pat {
+                    0 => 0,
+                    1 => 0xFF,
+                    2 => 0x01,
+                    _ => r.next_u32() as u8,
+                };
+            }
+            if pat == 4 {
+                // a single 500 kHz channel only
+                for b in v.iter_mut().take(8) {
+                    *b = 0;
+                }
+                v[8] = 0x01;
+            }
+            for b in v.iter_mut().take(15).skip(9) {
+                *b = if r.chance(1, 4) { r.next_u32() as u8 } else { 0 };
+            }
+            v[15] = 1;
+        }
+        _ => {
+            v = r.bytes(16);
+            if v[15] < 2 {
+                v[15] = 2 + (v[15] & 1);
+            }
+        }
+    }
+    v
+}
+
+pub fn gen_ja(r: &mut Rng, region: RegionId, wild: bool) -> JaSpec {
+    JaSpec {
+        join_nonce: r.next_u32() & 0xFF_FFFF,
+        net_id: r.next_u32() & 0xFF_FFFF,
+        devaddr: r.next_u32(),
+        dl_settings: if wild { r.below(256) as u8 } else { 0 },
+        rx_delay: if wild { *r.pick(&[0u8, 1, 2, 5, 15, 16, 0x80, 0xFF]) } else { 0 },
+        cflist: if wild && r.chance(1, 2) { Some(gen_cflist(r, region)) } else { None },
+        tamper: Tamper::None,
+    }
+}
